@@ -1,29 +1,31 @@
 import ErgoVerif.Model.Meta
 namespace ErgoVerif.Meta
 
+/-- the invariant of the protocol with the hand-off (`ho = true`) -/
 def Inv (c : Cfg) : Prop :=
   c.h1 + c.r0 + c.rb + c.r3 + c.rE ≤ 1 ∧ c.tmS + c.tmH ≤ c.terms ∧ c.terms ≤ 1 ∧
-  c.a0 + c.a1 + c.a2 ≤ 1 ∧
-  (c.st = .zero → c.a0 = 1 ∧ c.h1 + c.r0 + c.rb + c.r3 + c.rE = 0 ∧ c.terms = 0 ∧ c.r4 = 0 ∧ c.r5 = 0) ∧
-  (c.st = .sleep → c.h1 + c.r0 + c.rb + c.r3 + c.rE = 0 ∧ c.terms = 0) ∧
-  (c.st = .running → c.h1 + c.r0 + c.rb + c.r3 + c.rE = 1 ∧ c.terms = 0) ∧
-  (c.st = .terminated → c.terms = 1) ∧
-  (c.tmH ≥ 1 → c.h1 + c.r0 + c.rb + c.r3 + c.rE = 0) ∧
+  c.a0 + c.a1 + c.a2 ≤ 1 ∧ c.pend ≤ 1 ∧
+  (c.st = .zero → c.a0 = 1 ∧ c.h1 + c.r0 + c.rb + c.r3 + c.rE = 0 ∧ c.terms = 0 ∧ c.r4 = 0 ∧ c.r5 = 0 ∧ c.pend = 0) ∧
+  (c.st = .sleep → c.h1 + c.r0 + c.rb + c.r3 + c.rE = 0 ∧ c.terms = 0 ∧ c.pend = 0) ∧
+  (c.st = .running → c.h1 + c.r0 + c.rb + c.r3 + c.rE = 1 ∧ c.terms = 0 ∧ c.pend = 0) ∧
+  (c.st = .terminated → c.terms + c.pend = 1 ∧ c.h1 + c.r0 + c.rb + c.r3 + c.rE = c.pend) ∧
+  (c.tmS + c.tmH ≥ 1 → c.h1 + c.r0 + c.rb + c.r3 + c.rE = 0) ∧
+  (c.terms = 1 → c.st = .terminated) ∧
   (c.st ≠ .zero → c.a0 = 0) ∧
   (c.st = .sleep → c.mail > 0 → c.h0 + c.r4 + c.r5 ≥ 1)
 
 theorem inv_init : Inv init := by simp [Inv, init]
 
 set_option maxRecDepth 8000 in
-set_option maxHeartbeats 1600000 in
-theorem step_inv (c : Cfg) (l : Lbl) (c' : Cfg) (h : Inv c) (hs : step c l = some c') : Inv c' := by
+set_option maxHeartbeats 3200000 in
+theorem step_inv (c : Cfg) (l : Lbl) (c' : Cfg) (h : Inv c) (hs : step true c l = some c') : Inv c' := by
   unfold Inv at *
-  obtain ⟨st, a0, a1, a2, s1, h0, h1, r0, rb, r3, r4, r5, rE, tmS, tmH, mail, handled, terms⟩ := c
-  cases l <;> cases st <;> simp only [step, reduceCtorEq, ↓reduceIte] at hs <;>
+  obtain ⟨st, a0, a1, a2, s1, h0, h1, r0, rb, r3, r4, r5, rE, tmS, tmH, mail, handled, terms, pend⟩ := c
+  cases l <;> cases st <;> simp only [step, reduceCtorEq, ↓reduceIte, Bool.true_and, Bool.and_true, if_true] at hs <;>
     (repeat' split at hs) <;>
     (first | (cases hs) | skip) <;> simp at h ⊢ <;> omega
 
-theorem reach_inv {c : Cfg} (h : Reach c) : Inv c := by
+theorem reach_inv {c : Cfg} (h : Reach true c) : Inv c := by
   obtain ⟨ls, hr⟩ := h
   exact run_inv (Inv := Inv) step_inv inv_init hr
 
